@@ -25,6 +25,8 @@ RULE = (
 ASSUMPTIONS = [
     "adequacy rule and envelopes calibrated on the tree (make_grid(30,20) d4 vs (40,30) d5: <=4e-4; (20,15) d3: <=5e-3; linear mode d4: <=1.5e-2)",
     "geometric grids are not adequate above x~0.5 and are not generated for the refinement clause",
+    "refinement clause: x <= 0.7 and no shifted convolution point of a massive kernel (x(1+m2/Q2), x(1+sqrt(1+4m2/Q2))/2) inside (0.7, 1): "
+    "closer to 1 the test PDFs (1-x)^b fall by orders of magnitude within one cell and the envelopes do not apply (seed 13: intrinsic charm at 0.956)",
 ]
 BUDGET = {"quick": {"examples": 1600, "wall": 560, "min_evaluations": 300}, "thorough": {"examples": 8000, "wall": 2400, "min_evaluations": 2000}}
 MANDATORY = {t: ["nontrivial", "clause:refine", "clause:node", "class:fine", "class:coarse", "mode:linear", "sv:on", "pto:2", "scheme:massive"] for t in ("quick", "thorough")}
@@ -49,6 +51,14 @@ def grid_spec(draw, fine, x):
     return {"nlow": nlow, "nmid": nmid, "degree": degree, "log": is_log, "xmin": float(f"{xmin:.6g}")}
 
 
+def shift_factors(th, q2):
+    out = []
+    for m in ("mc", "mb", "mt"):
+        r = th[m] ** 2 / q2
+        out += [1.0 + r, (1.0 + math.sqrt(1.0 + 4.0 * r)) / 2.0]
+    return out
+
+
 @st.composite
 def cases(draw, tier="quick"):
     clause = draw(st.sampled_from(["refine", "refine", "node"]))
@@ -69,6 +79,13 @@ def cases(draw, tier="quick"):
     kin = ob["observables"][meta["name"]][0]
     if clause == "refine":
         x = round(draw(st.floats(math.log(1e-3), math.log(0.7)).map(math.exp)), 6)
+        # massive kernels are convolved at a shifted point (x(1+m2/Q2) CC heavy, x(1+sqrt(1+4m2/Q2))/2 intrinsic): no such
+        # point may fall into (0.7, 1), where the generated PDFs (1-x)^b are not resolved by any grid to the stated accuracy
+        for _ in range(6):
+            shifted = [x * f for f in shift_factors(th, kin["Q2"]) if 0.7 < x * f < 1.0]
+            if not shifted:
+                break
+            x = float(f"{x * 0.7 / max(shifted) * (1 - 1e-6):.6g}")
         kin["x"] = x
         fine = draw(st.booleans())
         cfg["fine"] = fine
